@@ -163,9 +163,26 @@ func (lineParser *LineParser) parseMarkup() (*ParseResult, error) {
 	}
 
 	return &ParseResult{
-		Text:       strings.TrimSpace(builder.String()),
+		Text:       trimText(builder.String(), attributes),
 		Attributes: attributes,
 	}, nil
+}
+
+// trimText strips the whitespace surrounding text, and moves the given attributes accordingly
+// so that they keep covering the same characters and stay inside the trimmed text.
+func trimText(text string, attributes []Attribute) string {
+	leftTrimmedText := strings.TrimLeftFunc(text, unicode.IsSpace)
+	trimmedText := strings.TrimRightFunc(leftTrimmedText, unicode.IsSpace)
+
+	offset := utf8.RuneCountInString(text) - utf8.RuneCountInString(leftTrimmedText)
+	length := utf8.RuneCountInString(trimmedText)
+	for i := range attributes {
+		start := min(max(attributes[i].Position-offset, 0), length)
+		end := min(max(attributes[i].Position+attributes[i].Length-offset, 0), length)
+		attributes[i].Position, attributes[i].Length = start, end-start
+	}
+
+	return trimmedText
 }
 
 func (lineParser *LineParser) buildAttributesFromMarkers(markers []attributeMarker) ([]Attribute, error) {
